@@ -396,6 +396,10 @@ def mk_comp(d, it, items, conds=()):
         conds_r = tuple(rename_binder(c, d, fresh) for c in conds)
         pushed = mk_comp(fresh, inner, items_r, conds_r)
         return ("comp", it[1], it[2], (("spread", pushed),), ())
+    # a comprehension over a filtered view <x for x in X if c(x)> is one comprehension with the filter first
+    if it[0] == "comp" and it[3] == (("bv", it[1]),) and it[4] and not has(items, "idx") and not has(conds, "idx") and not has(it[4], "idx"):
+        moved = tuple(rename_binder(c, it[1], d) for c in it[4])
+        return mk_comp(d, it[2], items, moved + tuple(conds))
     # a comprehension over an unfiltered one-item comprehension is one comprehension
     if it[0] == "comp" and len(it[3]) == 1 and not it[4] and it[3][0][0] not in ("spread", "when"):
         inner_item = rename_binder(it[3][0], it[1], d)
@@ -478,6 +482,21 @@ def _has_term(v, t) -> bool:
     if v == t:
         return True
     return isinstance(v, tuple) and any(_has_term(x, t) for x in v if isinstance(x, tuple))
+
+
+def concat_parts(v) -> list:
+    """The sequences a value concatenates, in order: a + b, (*a, *b), [*a, *b], itertools.chain(a, b), tuple(...) /
+    list(...) of one of those; a value that is no concatenation is its own single part."""
+    v = _unwrap_seq(v)
+    if v[0] == "op" and v[1] == "+":
+        return concat_parts(v[2]) + concat_parts(v[3])
+    if v[0] == "list" and v[1] and all(i[0] == "spread" for i in v[1]):
+        return [p for i in v[1] for p in concat_parts(i[1])]
+    if v[0] == "call" and v[1].split(".")[-1] == "chain" and v[2] and not v[3]:
+        return [p for a in v[2] for p in concat_parts(a)]
+    if v[0] == "call" and v[1] in ("tuple", "list") and len(v[2]) == 1 and not v[3]:
+        return concat_parts(v[2][0])
+    return [v]
 
 
 def mk_join(sep, seq):
@@ -2137,6 +2156,15 @@ class AV:
                     v = ("sym", "sympy.true" if args[0][1] else "sympy.false")
             else:
                 v = ("mcall", self._ev(fn.value, fr), fn.attr, args, kwargs_t)
+                if fn.attr == "find_data" and len(args) == 1 and not kwargs_t:
+                    # lark: tree.find_data(d) is (t for t in tree.iter_subtrees() if t.data == d)
+                    d_ = fr.binder + 1 + max(max_binder(v[1]), max_binder(args[0]))
+                    v = mk_comp(d_, ("mcall", v[1], "iter_subtrees", (), ()), (("bv", d_),), (mk_cmp("==", ("attr", ("bv", d_), "data"), args[0]),))
+                if fn.attr == "has" and len(args) > 1 and not kwargs_t and not any(a_[0] == "spread" for a_ in args):
+                    # sympy: x.has(a, b) is x.has(a) or x.has(b)
+                    v = ("mcall", v[1], "has", (args[0],), ())
+                    for a_ in args[1:]:
+                        v = mk_or(v, ("mcall", v[1] if v[0] == "mcall" else self._ev(fn.value, fr), "has", (a_,), ()))
         else:
             nm = d_ or norm(fn)
             origin = self._imports(fr.rel).get(nm) if d_ else None
@@ -2201,6 +2229,13 @@ class AV:
                         for k_, v_ in pairs:
                             out_[k_] = v_
                         return ("dict", tuple(out_.items()))
+                # dict(zip(A, range(len(A)))) / dict(zip(A, itertools.count())) is {x: i for i, x in enumerate(A)}
+                if a0[0] == "call" and a0[1] == "zip" and len(a0[2]) == 2 and not a0[3]:
+                    A_, R_ = _unwrap_seq(a0[2][0]), a0[2][1]
+                    counts = R_ == ("call", "range", (("call", "len", (A_,), ()),), ()) or R_ == ("call", "range", (("call", "len", (a0[2][0],), ()),), ()) or (R_[0] == "call" and R_[1] == "itertools.count" and R_[2] in ((), (C(0),)))
+                    if counts:
+                        d_ = fr.binder + 1 + max_binder(A_)
+                        return mk_comp(d_, A_, (("kv", ("bv", d_), ("idx", d_, C(0))),))
                 ev_ = _pairs_to_events(_unwrap_seq(a0))
                 if ev_[0] == "list":
                     return ev_
@@ -2219,6 +2254,13 @@ class AV:
                 return self._textwrap(name, args, kw)
             if name == "getattr" and len(args) == 2 and not kw and args[1][0] == "c" and isinstance(args[1][1], str) and args[1][1].isidentifier():
                 return _attr(args[0], args[1][1])  # getattr(x, 'name') is x.name
+            if name == "next" and len(args) == 2 and not kwargs and _unwrap_seq(args[0])[0] == "comp":
+                # next((x for x in X if c(x)), default): the first match if there is one, else the default
+                cp_ = _unwrap_seq(args[0])
+                if len(cp_[3]) == 1 and cp_[3][0][0] not in ("spread", "when", "kv", "kadd"):
+                    exists = mk_anyall("any", mk_comp(cp_[1], cp_[2], (cp_[4][0],))) if len(cp_[4]) == 1 else (mk_anyall("any", mk_comp(cp_[1], cp_[2], (C(True),))) if not cp_[4] else None)
+                    if exists is not None:
+                        return mk_if(exists, ("sub", cp_, C(0)), args[1])
             if name in ("range", "zip", "enumerate", "reversed", "sorted", "map", "filter", "sum", "min", "max", "any", "all", "int", "float", "bool", "repr", "abs", "round", "type", "getattr", "hasattr", "iter", "next", "set", "frozenset"):
                 if name == "range" and len(args) == 2 and args[0] == C(0):
                     args = (args[1],)
@@ -2317,6 +2359,10 @@ class AV:
         return mk_fold(d, it, init, subst(body, {("acc", d, "<reduce>"): ("acc", d)}))
 
     def _textwrap(self, name, args, kw):
+        # keyword form: indent(text, prefix="    ") / indent(text=..., prefix=...) / dedent(text=...)
+        if kw and set(kw) <= {"text", "prefix"} and not ("text" in kw and args) and not ("prefix" in kw and len(args) > 1):
+            args = tuple(args) + ((kw["text"],) if "text" in kw else ()) + ((kw["prefix"],) if "prefix" in kw and name == "indent" else ())
+            kw = {}
         if name == "dedent" and args and args[0][0] == "c" and isinstance(args[0][1], str):
             return C(textwrap.dedent(args[0][1]))
         if name == "indent" and len(args) >= 2 and args[0][0] == "c" and args[1][0] == "c" and isinstance(args[0][1], str) and not kw:
